@@ -33,6 +33,7 @@ CONC = {
     "cond": ["a <= b when c = '1' else d when e = '1' else '0';"],
     "sel": ["with s select a <=", "  b when \"00\",", "  c when \"01\",", "  d when others;"],
     "proc": ["p_main : process (clk, rst) is", "begin", "  if rising_edge(clk) then", "    q <= d;", "  end if;", "end process p_main;"],
+    "proc2": ["p_two : process (clk) is", "begin", "  if rising_edge(clk) then", "    q <= d;", "    q_long <= d_in and e;", "  end if;", "end process p_two;"],
     "procall": ["process (all) is", "  variable v : integer;", "begin", "  v := 1;", "  q <= d;", "end process;"],
     "procw": ["process", "begin", "  wait until clk = '1';", "  q <= d;", "  wait;", "end process;"],
     "inst": ["u1 : cmp", "  generic map (g => 2)", "  port map (a => x, b => y);"],
